@@ -41,6 +41,22 @@ CHECKS["C04"] = dict(
     ref="DESIGN.md section 4 C04",
     technique="TLA+ survey + insertion model, TLC enumeration, spec-behaviour replay into Cube")
 
+CHECKS["C11"] = dict(
+    text="Derived.tla defines the variance of a row/column/table proportion as the weighted "
+         "variance of the signed cell indicator among the respondents of the base; TLC "
+         "enumerates bags x insertion configurations (ordinary, subtotal, difference, "
+         "intersection cells; slices and strands); variances compared as exact rationals, "
+         "std-dev/std-err/MoE by square and sign (Z = 1.959964).",
+    ref="DESIGN.md section 4 C11",
+    technique="TLA+ survey model, TLC enumeration, spec-behaviour replay into Cube")
+CHECKS["C12"] = dict(
+    text="Derived.tla defines z by sign and square from each cell's own bases and the exact "
+         "rank < 2 rule; TLC enumerates bags (degenerate tables included) x insertion "
+         "configurations and checks the theorem Z2 = Pearson chi-square on every 2x2 state; "
+         "zscores compared by sign and square, pvals against the two-sided normal tail.",
+    ref="DESIGN.md section 4 C12",
+    technique="TLA+ survey model + TLC-checked spec theorem, spec-behaviour replay into Cube")
+
 NOT_YET = {}
 
 
